@@ -860,6 +860,23 @@ func (w *world) run(tier string) (bool, interface{}) {
 			if t.mate != nil {
 				t.mate.hasIgnore = true
 			}
+			if tp.Bool(1, 2, "recoveryPath") {
+				// the way an operator recovers a node: tell it to ignore the newest entries, let it
+				// read the log again from the start, and it goes on sending through the same handle
+				t.ops = append(t.ops, op{kind: opRead, from: uint64(tp.Choose(2, "rereadFrom")), poll: false})
+				so := op{kind: opSend}
+				for j := 0; j < 1+tp.Choose(2, "batchAfterReread"); j++ {
+					sz := 1 + tp.Choose(100, "size")
+					if big {
+						sz = sizeClass(tp)
+					}
+					so.sizes = append(so.sizes, sz)
+					so.tags = append(so.tags, fmt.Sprintf("t%d", tagN))
+					tagN++
+				}
+				t.ops = append(t.ops, so)
+				w.stats.Fault("ignore-reread-send-on-one-handle")
+			}
 			continue
 		}
 		if tp.Choose(4, "readOrSend") == 0 {
